@@ -511,6 +511,9 @@ def get_attribute(I, o, name, default=_NOCONST):
     if default is not _NOCONST:
         return default
     if I.spec:
+        if isinstance(o, (VStr, VInt, VReal, VBool, VNone, VSeq, VMap)):
+            # a builtin value without that attribute: the operation is undefined (unconstrained), not a spec typo
+            raise SpecUndef("attribute %s of %s" % (name, type(o).__name__))
         raise Unsupported("attribute %s of %s" % (name, type(o).__name__))
     I.raise_exc("AttributeError", name)
 
@@ -915,9 +918,14 @@ def _minmax(I, args, kw, is_max):
         xs = I.force(args[0]) if not I.spec else args[0]
         if isinstance(xs, VTuple):
             args = xs.items
+        elif isinstance(xs, VEmptyList) and "default" in kw:
+            return kw["default"]
         elif isinstance(xs, VSeq):
             if "key" in kw:
                 raise Unsupported("min/max with key over list")
+            if "default" in kw:
+                if not I.path.branch(xs.n > 0):
+                    return kw["default"]
             I.require_defined(xs.n > 0, "ValueError", "min()/max() arg is an empty sequence")
             r = I.fresh_value(xs.et, "mx")
             i = z3.Int(I.path.fresh_name("mm_i"))
@@ -1732,7 +1740,16 @@ def str_method(I, s, name, args, kw):
     if name == "split":
         return I.ver.split_term(I, s, args, kw)
     if name == "format":
-        return I.ver.opaque_str("format", VTuple([s] + list(args)), I)
+        # str.format: an uninterpreted function of the template and the arguments; with a non-constant template it
+        # may raise (KeyError / IndexError / ValueError for unknown fields, bad indexes, malformed specs)
+        if not I.spec and s.concrete() is None:
+            if I.path.branch(I.path.fresh("format_raises", z3.BoolSort())):
+                raise PyRaise(VExc("Exception", [], any_subclass=True))
+        items = [s] + list(args) + [kw[k] for k in sorted(kw)]
+        try:
+            return I.ver.opaque_str("format_" + "_".join(sorted(kw)), VTuple(items), I)
+        except Exception:
+            return VStr(I.path.fresh("ostr_format", z3.StringSort()))
     raise Unsupported("str.%s" % name)
 
 
@@ -1797,6 +1814,8 @@ def comprehension(I, n, env):
         e2 = Env(env, env.module)
         I.assign_spec(gen.target, mk_item(i), e2)
         conds = [I.truth(I.ev(c, e2)) for c in gen.ifs]
+        if conds and z3.is_false(z3.simplify(z3.And(conds))):
+            return VEmptyList()     # the filter rejects every element (e.g. isinstance(x, dict) over a list of strings)
         elt = I.ev(n.elt, e2)
     finally:
         I.spec = saved
